@@ -1,83 +1,43 @@
 """C34 accepted gossipsub configs never break the behaviour — validation coverage of ConfigBuilder::build (K1/K5 dominance), writers (K4), constants (K6), difference-constraint closure over the heartbeat subtractions (K9)."""
 import re
 
-from .. import lib, mir
+from .. import lib, lib_gs2, mir
+from ..lib_gs2 import Canon, rel_pred, const_pred, NEG, FLIP
 from ..mir import render, strip_generics
 
 EXPLANATION = ("ConfigBuilder::build: the Ok result is dominated (on every path, including the path on which every per-topic loop runs zero "
-               "times) by the accepting edge of a comparison for each required relation on the DEFAULT parameters: mesh_outbound_min <= "
-               "mesh_n_low, mesh_n_low <= mesh_n, mesh_n <= mesh_n_high, 2*mesh_outbound_min <= mesh_n, default_max_transmit_size >= 100, "
-               "history_gossip <= history_length; for per-topic settings a loop over the collection that holds them must re-establish the "
-               "relations in every iteration (max_transmit_sizes for the size, topic_mesh_params for the mesh relations). The validated "
-               "fields can only be written by ConfigBuilder methods, Config values are only built by ConfigBuilder::default and handed out "
-               "by build (Config::default goes through build), the built-in defaults satisfy the relations, and the getters the behaviour "
-               "uses return the validated fields. Behaviour::heartbeat: every usize subtraction is proved non-negative from the comparisons "
-               "that dominate it (no intervening write to the compared quantities) closed under the build invariants "
+               "times) by the accepting edge of a comparison for each required relation on the DEFAULT parameters — the operands are whatever "
+               "the public getters Config::{mesh_outbound_min, mesh_n_low, mesh_n, mesh_n_high, max_transmit_size, history_gossip, "
+               "history_length} return (getter calls are inlined, so direct field reads and getter calls are the same operand; mirrored, "
+               "negated and stricter comparisons are accepted): mesh_outbound_min <= mesh_n_low <= mesh_n <= mesh_n_high, "
+               "2*mesh_outbound_min <= mesh_n, max_transmit_size >= 100, history_gossip <= history_length; for per-topic settings a loop over "
+               "the collection the public setter fills (max_transmit_size_for_topic / set_topic_config) must re-establish the relations in "
+               "every iteration. The validated fields can only be written by ConfigBuilder methods, Config values are only built by "
+               "ConfigBuilder::default and handed out by build (Config::default goes through build), the built-in defaults satisfy the "
+               "relations, setters and getters agree on the field. Behaviour::heartbeat: every usize subtraction is proved non-negative from "
+               "the comparisons that dominate it (no intervening write to the compared quantities) closed under the build invariants "
                "mesh_outbound_min <= mesh_n_low <= mesh_n <= mesh_n_high (difference-constraint closure, hand-rolled).")
-ASSUMPTIONS = ["only direct comparisons inside build are recognised as validation (a helper function would need an inlining rule)",
+ASSUMPTIONS = ["only comparisons inside build (after inlining branch-free getters one level) are recognised as validation",
                "heartbeat panics other than usize subtraction underflow (slice indexing, unwrap) are not part of this check",
                "the heartbeat subtraction proofs assume the build invariants for the topic's parameter set; for topics configured only "
                "through set_topic_config that assumption is the recorded known finding"]
 G = "libp2p_gossipsub"
 CONFIGS = [{"name": "gossipsub-features", "packages": ["libp2p-gossipsub"], "features": "metrics,partial-messages"}]
 SELFTEST = [
-    {"mutation": "fix reverted: default parameter checks removed from build (original F7)", "caught_by": "coverage/default: mesh_n_low <= mesh_n (and the other five default relations)"},
+    {"mutation": "fix reverted: default parameter checks removed from build (original F7)", "caught_by": "coverage/default: mesh_n_low <= mesh_n (and the other four default relations)"},
     {"mutation": "build: `default_mesh.mesh_n <= default_mesh.mesh_n_high` -> `default_mesh.mesh_n_low <= default_mesh.mesh_n_high`", "caught_by": "coverage/default: mesh_n <= mesh_n_high"},
     {"mutation": "build: `history_length < history_gossip` -> `history_length > history_gossip`", "caught_by": "coverage/history_gossip <= history_length"},
     {"mutation": "build: default `max_transmit_size < 100` -> `< 10`", "caught_by": "coverage/default_max_transmit_size >= 100"},
     {"mutation": "heartbeat: `if peers.len() < mesh_n_low` -> `if peers.len() < mesh_n_high` before `mesh_n - peers.len()`", "caught_by": "heartbeat-sub/mesh_n_for_topic - len(mesh peers) cannot underflow"},
     {"mutation": "heartbeat: `if peers.len() >= mesh_n_high` -> `if peers.len() >= mesh_n_low` before `peers.len() - mesh_n`", "caught_by": "heartbeat-sub/len(mesh peers) - mesh_n_for_topic cannot underflow"},
     {"mutation": "heartbeat: `if outbound <= mesh_outbound_min {continue}` deleted before `outbound -= 1`", "caught_by": "heartbeat-sub/outbound - 1 cannot underflow"},
-    {"mutation": "Config::mesh_n_low_for_topic returns `.mesh_n_high`", "caught_by": "getters/Config::mesh_n_low_for_topic returns the validated field"},
+    {"mutation": "Config::mesh_n_low_for_topic returns `.mesh_n_high`", "caught_by": "getters/Config::mesh_n_low_for_topic = the topic's entry or the default, same field as Config::mesh_n_low"},
     {"mutation": "TopicMeshConfig::default mesh_n_low: 5 -> 7", "caught_by": "defaults/built-in default mesh parameters satisfy the relations"},
     {"mutation": "new pub fn Config::set_mesh_n(&mut self, n) writing default_mesh_params.mesh_n", "caught_by": "writers/validated fields are only written by ConfigBuilder"},
+    {"mutation": "neutral/gs/07 (mirrored comparisons in heartbeat), 09 (extra trace line)", "caught_by": "(silent, as required)"},
 ]
-
-NEG = {"Lt": "Ge", "Le": "Gt", "Gt": "Le", "Ge": "Lt", "Eq": "Ne", "Ne": "Eq"}
-FLIP = {"Lt": "Gt", "Le": "Ge", "Gt": "Lt", "Ge": "Le", "Eq": "Eq", "Ne": "Ne"}
-
-
-def edge_facts(body):
-    """For every comparison switch: list of (bb, tgt, op, lhs_expr, rhs_expr) meaning `lhs op rhs` holds on edge bb->tgt."""
-    out = []
-    for bi in sorted(body.live):
-        info = body.switch_info(bi)
-        if not info:
-            continue
-        cond, labs = info
-        if cond[0] != "bin" or cond[1] not in NEG:
-            continue
-        for tgt, ls in labs.items():
-            if ls == {"true"}:
-                out.append((bi, tgt, cond[1], cond[2], cond[3]))
-            elif ls == {"false"}:
-                out.append((bi, tgt, NEG[cond[1]], cond[2], cond[3]))
-    return out
-
-
-def le_edges(body, x_pat, y_pat, facts=None):
-    """Edges on which `x <= y` is known (x < y included), x / y given as regexes on rendered operands."""
-    xr, yr = re.compile(x_pat), re.compile(y_pat)
-    out = set()
-    for bi, tgt, op, a, b in facts if facts is not None else edge_facts(body):
-        ra, rb = render(a), render(b)
-        if op in ("Le", "Lt") and xr.search(ra) and yr.search(rb):
-            out.add((bi, tgt))
-        if op in ("Ge", "Gt") and xr.search(rb) and yr.search(ra):
-            out.add((bi, tgt))
-    return out
-
-
-def ge_const_edges(body, x_pat, c, facts=None):
-    """Edges on which x >= c is known for the integer constant c (x >= c', c' >= c accepted)."""
-    xr = re.compile(x_pat)
-    out = set()
-    for bi, tgt, op, a, b in facts if facts is not None else edge_facts(body):
-        for o, l, r in ((op, a, b), (FLIP[op], b, a)):
-            if xr.search(render(l)) and r[0] == "const" and isinstance(r[1], int):
-                if (o == "Ge" and r[1] >= c) or (o == "Gt" and r[1] >= c - 1):
-                    out.add((bi, tgt))
-    return out
+MESH = ("mesh_outbound_min", "mesh_n_low", "mesh_n", "mesh_n_high")
+INL = r"^libp2p_gossipsub::config::Config::\w+$|^libp2p_gossipsub::protocol::ProtocolConfig::\w+$"
 
 
 # ------------------------------------------------------------------------------------------------ difference constraints
@@ -87,7 +47,6 @@ def closure_le(facts, b, a):
     for x, y, _ in facts:
         nodes.add(x)
         nodes.add(y)
-    # edge y -> x with weight w encodes x - y <= w ; we want a path a -> b of total weight <= 0  (b - a <= 0)
     dist = {n: float("inf") for n in nodes}
     dist[a] = 0
     for _ in range(len(nodes) + 1):
@@ -102,25 +61,15 @@ def closure_le(facts, b, a):
 
 
 def cmp_to_facts(op, x, y):
-    if op == "Lt":
-        return [(x, y, -1)]
-    if op == "Le":
-        return [(x, y, 0)]
-    if op == "Gt":
-        return [(y, x, -1)]
-    if op == "Ge":
-        return [(y, x, 0)]
-    if op == "Eq":
-        return [(x, y, 0), (y, x, 0)]
-    return []
+    return {"Lt": [(x, y, -1)], "Le": [(x, y, 0)], "Gt": [(y, x, -1)], "Ge": [(y, x, 0)], "Eq": [(x, y, 0), (y, x, 0)]}.get(op, [])
 
 
 MUTATORS = r"::(insert|remove|retain|extend|clear|push|pop|append|truncate|drain|split_off|take|pop_first|pop_last|swap_remove|resize|dedup\w*)$"
 
 
 def kill_blocks(body, exprs):
-    """Blocks that may change the value of one of the expressions: whole assignments to a named multi-def local occurring in it,
-    or a mutating call whose receiver is a collection occurring in it."""
+    """Blocks that may change the value of one of the (raw) expressions: whole assignments to a multi-def local occurring in it,
+    or a mutating call whose receiver is a collection whose size occurs in it."""
     locals_, recvs = set(), set()
     for e in exprs:
         for s in mir.walk(e):
@@ -140,39 +89,53 @@ def kill_blocks(body, exprs):
     return ks
 
 
-def guard_facts(body, site_bb):
-    """Difference constraints known at site_bb: dominating comparison edges whose operands are not overwritten between the edge and
-    the site."""
+def guard_facts(cx, site_bb):
+    """Difference constraints known at site_bb: dominating comparison edges (any spelling) whose operands are not overwritten
+    between the edge and the site."""
+    body = cx.b
     facts, used = [], []
     for text, labels, sw, cond in body.guards_on_all_paths(site_bb):
-        if cond[0] != "bin" or cond[1] not in NEG or labels not in (frozenset({"true"}), frozenset({"false"})):
+        swc = cx.switch(sw)
+        if not swc:
             continue
-        op = cond[1] if labels == frozenset({"true"}) else NEG[cond[1]]
+        atoms = [a for a in lib_gs2.atoms_of(swc[0], labels) if a[0] == "rel"]
+        if not atoms:
+            continue
         info = body.switch_info(sw)
-        tgts = [t for t, ls in info[1].items() if ls == set(labels)]
-        ks = kill_blocks(body, [cond[2], cond[3]])
+        tgts = [t for t, ls in info[1].items() if ls <= set(labels)]
+        ks = kill_blocks(body, [cond])
         killed = False
+        r1 = body.reachable(tgts, blocked_nodes=[sw])
         for k in ks:
-            if k == sw:
+            if k == sw or k == site_bb:
                 continue
-            r1 = body.reachable(tgts, blocked_nodes=[sw])
-            if k in r1 and (site_bb in body.reachable(body.succ[k], blocked_nodes=[sw]) or k == site_bb) and k != site_bb:
+            if k in r1 and site_bb in body.reachable(body.succ[k], blocked_nodes=[sw]):
                 killed = True
         if killed:
             continue
-        fs = cmp_to_facts(op, render(cond[2]), render(cond[3]))
-        if fs:
-            facts += fs
-            used.append("%s %s %s" % (short(render(cond[2])), {"Lt": "<", "Le": "<=", "Gt": ">", "Ge": ">=", "Eq": "==", "Ne": "!="}[op], short(render(cond[3]))))
+        for _, op, x, y in atoms:
+            fs = cmp_to_facts(op, x, y)
+            if fs:
+                facts += fs
+                used.append("%s %s %s" % (short(x), {"Lt": "<", "Le": "<=", "Gt": ">", "Ge": ">=", "Eq": "==", "Ne": "!="}[op], short(y)))
     return facts, used
 
 
 def short(r):
-    r = re.sub(r"libp2p_gossipsub::config::Config::(\w+)\(self\.config(, [^()]*(\([^()]*\))?[^()]*)?\)", r"\1", r)
+    r = re.sub(r"libp2p_gossipsub::config::Config::(\w+)\(\$1\.\w+(, [^()]*(\([^()]*\))?[^()]*)?\)", r"\1", r)
     r = re.sub(r"std::collections::BTreeSet::len\([^()]*(\([^()]*\))?[^()]*\)", "len(mesh peers)", r)
     r = re.sub(r"<std::iter::Filter as std::iter::Iterator>::count\(.*\)$", "count(outbound mesh peers)", r)
-    r = re.sub(r"std::vec::Vec::len\((\w+)\)", r"len(\1)", r)
+    r = re.sub(r"std::vec::Vec::len\((%\d+)\)", r"len(\1)", r)
+    r = re.sub(r"^%\d+$", "outbound", r)
     return r[:90]
+
+
+def getter_return(prog, name):
+    gb = prog.body(G, r"^libp2p_gossipsub::config::Config::%s$" % name)
+    rets = Canon(prog, gb, inline=INL).returns()
+    if len(rets) != 1:
+        raise mir.RuleError("getter %s: %d returns" % (name, len(rets)))
+    return gb, render(rets[0][1])
 
 
 def check(ctx):
@@ -180,107 +143,137 @@ def check(ctx):
     # ======================================================================================= build: validation coverage
     b = ctx.body(G, r"^libp2p_gossipsub::config::ConfigBuilder::build$")
     bw = "%s:%d" % (b.file, b.line)
-    oks = [mir.Site(b, x[1], x[2]) for x in b.defs[0] if x[0] == "stmt" and render(b.rvalue_expr(x[3])).startswith("std::result::Result::Ok{")]
+    cb = Canon(prog, b, inline=INL)
+    cfg_field = [f["n"] for f in prog.adt(G, r"config::ConfigBuilder$")["variants"][0]["fields"] if re.search(r"config::Config$", f["ty"])]
+    ctx.ob("coverage", "floor:ConfigBuilder holds one Config", len(cfg_field) == 1, bw, str(cfg_field), nontrivial=False)
+    CFG = "$1.%s" % (cfg_field[0] if cfg_field else "config")
+    oks = [(s, e) for s, e in cb.returns() if e[0] == "agg" and e[3] == "Ok"]
     ctx.floor("coverage", "Ok result of build", oks, 1, exact=True)
-    for s in oks:
-        r = render(b.site_expr(s))
-        ctx.ob("coverage", "the returned Config is the validated one", r == "std::result::Result::Ok{0: libp2p_gossipsub::<config::Config as std::clone::Clone>::clone(self.config)}", s.loc(), r[:140])
-    facts = edge_facts(b)
-    D = lambda f: r"^(self\.config\.topic_configuration\.default_mesh_params\.%s|libp2p_gossipsub::config::Config::%s\(self\.config\))$" % (f, f)
-    TWICE = lambda f: r"^(MulWithOverflow\((self\.config\.topic_configuration\.default_mesh_params\.%s|libp2p_gossipsub::config::Config::%s\(self\.config\)), 2\)\.0|MulWithOverflow\(2, (self\.config\.topic_configuration\.default_mesh_params\.%s|libp2p_gossipsub::config::Config::%s\(self\.config\))\)\.0)$" % (f, f, f, f)
-    HALF = lambda f: r"^Div\((self\.config\.topic_configuration\.default_mesh_params\.%s|libp2p_gossipsub::config::Config::%s\(self\.config\)), 2\)$" % (f, f)
+    for s, e in oks:
+        r = render(e)
+        ctx.ob("coverage", "the returned Config is the validated one", r == "std::result::Result::Ok{0: %s}" % CFG, s.loc(), r[:140])
+    # operands = what the public getters return, re-based on the builder's config
+    op = {}
+    for g in MESH + ("max_transmit_size", "history_gossip", "history_length"):
+        _, r = getter_return(prog, g)
+        op[g] = "^" + re.escape(r.replace("$1", CFG, 1)) + "$" if r.startswith("$1") else None
+    ctx.ob("coverage", "floor:getters are plain field reads", all(op.values()), bw, str({k: bool(v) for k, v in op.items()}), nontrivial=False)
+    if not all(op.values()):
+        return
+    un = lambda p: p[1:-1]
+    twice = lambda p: r"^(MulWithOverflow\(%s, 2\)\.0|MulWithOverflow\(2, %s\)\.0|Mul\(%s, 2\)|Mul\(2, %s\)|AddWithOverflow\(%s, %s\)\.0)$" % ((un(p),) * 6)
+    half = lambda p: r"^Div\(%s, 2\)$" % un(p)
     default_rel = [
-        ("default: mesh_outbound_min <= mesh_n_low", le_edges(b, D("mesh_outbound_min"), D("mesh_n_low"), facts)),
-        ("default: mesh_n_low <= mesh_n", le_edges(b, D("mesh_n_low"), D("mesh_n"), facts)),
-        ("default: mesh_n <= mesh_n_high", le_edges(b, D("mesh_n"), D("mesh_n_high"), facts)),
-        ("default: 2 * mesh_outbound_min <= mesh_n", le_edges(b, TWICE("mesh_outbound_min"), D("mesh_n"), facts) | le_edges(b, D("mesh_outbound_min"), HALF("mesh_n"), facts)),
-        ("default_max_transmit_size >= 100", ge_const_edges(b, r"^(self\.config\.protocol\.default_max_transmit_size|libp2p_gossipsub::config::Config::max_transmit_size\(self\.config\))$", 100, facts)),
-        ("history_gossip <= history_length", le_edges(b, r"^(self\.config\.history_gossip|libp2p_gossipsub::config::Config::history_gossip\(self\.config\))$", r"^(self\.config\.history_length|libp2p_gossipsub::config::Config::history_length\(self\.config\))$", facts)),
+        ("default: mesh_outbound_min <= mesh_n_low", cb.edges(rel_pred(op["mesh_outbound_min"], op["mesh_n_low"], "Le"))),
+        ("default: mesh_n_low <= mesh_n", cb.edges(rel_pred(op["mesh_n_low"], op["mesh_n"], "Le"))),
+        ("default: mesh_n <= mesh_n_high", cb.edges(rel_pred(op["mesh_n"], op["mesh_n_high"], "Le"))),
+        ("default: 2 * mesh_outbound_min <= mesh_n", cb.edges(rel_pred(twice(op["mesh_outbound_min"]), op["mesh_n"], "Le")) | cb.edges(rel_pred(op["mesh_outbound_min"], half(op["mesh_n"]), "Le"))),
+        ("default_max_transmit_size >= 100", cb.edges(const_pred(op["max_transmit_size"], "Ge", 100))),
+        ("history_gossip <= history_length", cb.edges(rel_pred(op["history_gossip"], op["history_length"], "Le"))),
     ]
     for name, edges in default_rel:
-        for s in oks:
-            ok = bool(edges) and b.must_pass_edges(s.bb, edges)
+        for s, _ in oks:
+            ok = cb.dominated(s.bb, edges)
             ctx.ob("coverage", name, ok, s.loc(),
                    "Ok is dominated by the accepting edge of this comparison" if ok else
                    ("no comparison establishing this relation dominates the Ok result: build accepts configurations violating it" if not edges else
                     "the comparison exists but a path reaches Ok without passing its accepting edge"))
-    # ---- per-topic loops
-    ELEM = r"<[^<>]*(<[^<>]*>)?[^<>]* as std::iter::Iterator>::next\(iter\)@Some\.0(\.0)?"
-    VAL = r"<[^<>]*(<[^<>]*>)?[^<>]* as std::iter::Iterator>::next\(iter\)@Some\.0(\.1)?"
-    T = lambda f: r"^(libp2p_gossipsub::config::Config::%s_for_topic\(self\.config, %s\)|%s\.%s)$" % (f, ELEM, VAL, f)
-    T2 = lambda f: r"^MulWithOverflow\((libp2p_gossipsub::config::Config::%s_for_topic\(self\.config, %s\)|%s\.%s), 2\)\.0$" % (f, ELEM, VAL, f)
-    TH = lambda f: r"^Div\((libp2p_gossipsub::config::Config::%s_for_topic\(self\.config, %s\)|%s\.%s), 2\)$" % (f, ELEM, VAL, f)
-    SIZE = r"^(libp2p_gossipsub::protocol::ProtocolConfig::max_transmit_size_for_topic\(self\.config\.protocol, %s\)|libp2p_gossipsub::config::Config::max_transmit_size_for_topic\(self\.config, %s\)|%s)$" % (ELEM, ELEM, VAL)
-    topic_rel = [
-        ("mesh_outbound_min <= mesh_n_low", le_edges(b, T("mesh_outbound_min"), T("mesh_n_low"), facts)),
-        ("mesh_n_low <= mesh_n", le_edges(b, T("mesh_n_low"), T("mesh_n"), facts)),
-        ("mesh_n <= mesh_n_high", le_edges(b, T("mesh_n"), T("mesh_n_high"), facts)),
-        ("2 * mesh_outbound_min <= mesh_n", le_edges(b, T2("mesh_outbound_min"), T("mesh_n"), facts) | le_edges(b, T("mesh_outbound_min"), TH("mesh_n"), facts)),
-    ]
-    size_edges = ge_const_edges(b, SIZE, 100, facts)
+    # ---- per-topic collections: what the public per-topic setters fill
+    coll = {}
+    for setter in ("max_transmit_size_for_topic", "set_topic_config"):
+        sb = ctx.body(G, r"^libp2p_gossipsub::config::ConfigBuilder::%s$" % setter)
+        csb = Canon(prog, sb)
+        tg = {render(csb.args(s)[0]) for s in sb.call_sites(r"HashMap::insert$")}
+        coll[setter] = next(iter(tg)) if len(tg) == 1 else None
+        ctx.ob("coverage", "floor:ConfigBuilder::%s fills one map" % setter, coll[setter] is not None, "%s:%d" % (sb.file, sb.line), str(sorted(tg)), nontrivial=False)
     loops = []
-    for s in b.call_sites(r"as std::iter::Iterator>::next$"):
-        some = [t for _, t in lib.switch_edges_on_site(b, s, {"Some"}, r"^discr\(<.* as std::iter::Iterator>::next\(iter\)\)$")]
+    for s in b.call_sites(r"iter::Iterator>::next$"):
+        e = b.site_expr(s)
+        if not (e[2] and e[2][0][0] == "local"):
+            continue
+        itl = e[2][0][1]
+        some = [t for bi in b.live if b.switch_info(bi) for t, ls in b.switch_info(bi)[1].items()
+                if ls == {"Some"} and b.switch_info(bi)[0][0] == "discr" and b.switch_info(bi)[0][1][0] == "call" and b.switch_info(bi)[0][1][3] == s.bb]
         if not some:
             continue
-        a0 = s.term["args"][0]
-        src = ""
-        # the iterator local: follow `&mut iter` to its initialiser
-        e = b.site_expr(s)[2][0]
-        if e[0] == "local":
-            src = render(b.init_expr(e[1]))
-        loops.append((s, some, src))
+        cl = Canon(prog, b, {itl: "it"}, inline=INL)
+        src = render(cl.init(itl)) if cl.init(itl) else ""
+        loops.append((s, some, src, cl))
     ctx.floor("coverage", "per-topic loops in build", loops, 1)
-    size_loops = [l for l in loops if "max_transmit_sizes" in l[2]]
-    mesh_loops = [l for l in loops if "topic_mesh_params" in l[2]]
+    ELEM = r"<[^()]*? as std::iter::Iterator>::next\(it\)@Some\.0(?:\.0)?"
+    VAL = r"<[^()]*? as std::iter::Iterator>::next\(it\)@Some\.0(?:\.1)?"
+
+    def topic_ops(getter):
+        """operand regex for the per-topic value: the `_for_topic` getter applied to the loop element (inlined), or the field of the
+        iterated value"""
+        _, r = getter_return(prog, getter + "_for_topic")
+        r = re.escape(r.replace("$1", CFG)).replace(re.escape("$2"), ELEM)
+        return r"^(%s|%s\.%s)$" % (r, VAL, getter)
+    _, rsz = getter_return(prog, "max_transmit_size_for_topic")
+    SIZE = r"^(%s|%s)$" % (re.escape(rsz.replace("$1", CFG)).replace(re.escape("$2"), ELEM), VAL)
+    T = {g: topic_ops(g) for g in MESH}
 
     def per_iter(loop, edges):
-        s, some, _ = loop
-        # every path from the Some edge back to the loop head (or on to the Ok result) passes an accepting edge
-        targets = [s.bb] + [o.bb for o in oks]
-        return bool(edges) and all(t not in b.reachable(some, blocked_edges=edges) for t in targets)
-    ctx.ob("coverage", "per-topic max_transmit_size: every entry of max_transmit_sizes is >= 100", any(per_iter(l, size_edges) for l in size_loops), bw,
-           "%d loop(s) over max_transmit_sizes; size test per iteration: %s" % (len(size_loops), [per_iter(l, size_edges) for l in size_loops]))
+        s, some, _, cl = loop
+        targets = [s.bb] + [o.bb for o, _ in oks]
+        closed = cl.closed(edges)
+        return bool(edges) and all(t not in b.reachable_bool(some, blocked_edges=closed) for t in targets)
+
+    def topic_rel(cl):
+        return [("mesh_outbound_min <= mesh_n_low", cl.edges(rel_pred(T["mesh_outbound_min"], T["mesh_n_low"], "Le"))),
+                ("mesh_n_low <= mesh_n", cl.edges(rel_pred(T["mesh_n_low"], T["mesh_n"], "Le"))),
+                ("mesh_n <= mesh_n_high", cl.edges(rel_pred(T["mesh_n"], T["mesh_n_high"], "Le"))),
+                ("2 * mesh_outbound_min <= mesh_n", cl.edges(rel_pred(twice(T["mesh_outbound_min"]), T["mesh_n"], "Le")) | cl.edges(rel_pred(T["mesh_outbound_min"], half(T["mesh_n"]), "Le")))]
+    size_loops = [l for l in loops if coll["max_transmit_size_for_topic"] and coll["max_transmit_size_for_topic"] in l[2]]
+    mesh_loops = [l for l in loops if coll["set_topic_config"] and coll["set_topic_config"] in l[2]]
+    ctx.ob("coverage", "per-topic max_transmit_size: every entry of max_transmit_sizes is >= 100", any(per_iter(l, l[3].edges(const_pred(SIZE, "Ge", 100))) for l in size_loops), bw,
+           "%d loop(s) over the per-topic size map; size test per iteration: %s" % (len(size_loops), [per_iter(l, l[3].edges(const_pred(SIZE, "Ge", 100))) for l in size_loops]))
     for l in size_loops:
-        for name, edges in topic_rel:
+        for name, edges in topic_rel(l[3]):
             ctx.ob("coverage", "topics with a transmit size: %s" % name, per_iter(l, edges), l[0].loc(), "relation re-established in every iteration of the loop over max_transmit_sizes")
     ok = bool(mesh_loops)
     ctx.ob("coverage", "per-topic mesh parameters: every entry of topic_mesh_params is validated", ok, bw,
            "a loop over topic_mesh_params exists" if ok else
            "build iterates only %s: a parameter set installed with set_topic_config / mesh_n_for_topic for a topic without a topic-specific max_transmit_size is never compared with anything" % [l[2][-60:] for l in loops])
     for l in mesh_loops:
-        for name, edges in topic_rel:
+        for name, edges in topic_rel(l[3]):
             ctx.ob("coverage", "every configured topic: %s" % name, per_iter(l, edges), l[0].loc(), "relation re-established in every iteration of the loop over topic_mesh_params")
-    # errors are returned on the rejecting edges (no fall-through to Ok)
-    errs = [mir.Site(b, x[1], x[2]) for x in b.defs[0] if x[0] == "stmt" and render(b.rvalue_expr(x[3])).startswith("std::result::Result::Err{")]
-    ctx.floor("coverage", "Err results of build", errs, 6)
-    for s in errs:
+    errs = [(s, e) for s, e in cb.returns() if e[0] == "agg" and e[3] == "Err"]
+    ctx.floor("coverage", "Err results of build", errs, 3)
+    for s, e in errs:
         r = b.reachable(b.succ[s.bb])
-        ctx.ob("coverage", "a rejection is final (%s)" % render(b.site_expr(s)).split("::")[-1].rstrip("{}"), not (set(lib.bbs(oks)) & r), s.loc(), "Ok not reachable after Err was chosen")
+        ctx.ob("coverage", "a rejection is final (%s)" % render(e).split("::")[-1].rstrip("{}"), not ({o.bb for o, _ in oks} & r), s.loc(), "Ok not reachable after Err was chosen")
     # ======================================================================================= who can write the validated fields
-    FIELDS = ("mesh_n", "mesh_n_low", "mesh_n_high", "mesh_outbound_min", "default_max_transmit_size", "history_length", "history_gossip",
-              "default_mesh_params", "topic_mesh_params", "topic_configuration", "max_transmit_sizes")
+    fields = set()
+    for g in MESH + ("max_transmit_size", "history_gossip", "history_length"):
+        fields |= set(re.findall(r"\.(\w+)", op[g].replace("\\", "")))
+    for c in coll.values():
+        if c:
+            fields |= set(re.findall(r"\.(\w+)", c))
+    fields -= set(cfg_field)
     writers = {}
     for body in prog.bodies(G):
-        for f in FIELDS:
+        for f in fields:
             for s in body.field_write_sites(f):
                 own = [pr.get("o") or "" for pr in (s.stmt["p"] if s.si is not None else s.term["d"]).get("pr", ()) if pr["k"] == "field" and pr["n"] == f]
                 if any(re.search(r"config::(Config|TopicConfigs|TopicMeshConfig|ConfigBuilder)|protocol::ProtocolConfig", o) for o in own):
                     writers.setdefault(body.npath, []).append(s)
+        cbd = Canon(prog, body)
         for s in body.call_sites(r"HashMap::(insert|entry|get_mut|remove|clear|retain|extend|drain)$|HashMap as std::iter::Extend>::extend$"):
-            r = render(body.site_expr(s)[2][0])
-            if re.search(r"\.(topic_mesh_params|max_transmit_sizes)$", r) and re.search(r"config|protocol", r):
+            a = cbd.args(s)
+            if a and a[0][0] == "field" and re.search(r"config::TopicConfigs|protocol::ProtocolConfig", a[0][3] or "") and a[0][2] in fields:
                 writers.setdefault(body.npath, []).append(s)
     bad = sorted(n for n in writers if not re.match(r"^libp2p_gossipsub::config::ConfigBuilder::", n))
-    ctx.ob("writers", "validated fields are only written by ConfigBuilder", not bad and len(writers) >= 10, writers[bad[0]][0].loc() if bad else "", "writers outside ConfigBuilder: %s (%d writer bodies)" % (bad, len(writers)))
+    ctx.ob("writers", "validated fields are only written by ConfigBuilder", not bad and len(writers) >= 10, writers[bad[0]][0].loc() if bad else "", "writers outside ConfigBuilder: %s (%d writer bodies; fields %s)" % (bad, len(writers), sorted(fields)))
     aggs = sorted({body.npath for body in prog.bodies(G) for s in body.agg_sites(r"^libp2p_gossipsub::config::Config$")})
     ctx.ob("writers", "Config values are only created by ConfigBuilder::default (and Clone)", aggs == ["libp2p_gossipsub::<config::Config as std::clone::Clone>::clone", "libp2p_gossipsub::<config::ConfigBuilder as std::default::Default>::default"], msg=str(aggs))
-    cb = prog.adt(G, r"config::ConfigBuilder$")
-    vis = {f["n"]: f["vis"] for f in cb["variants"][0]["fields"]}
-    ctx.ob("writers", "ConfigBuilder.config is private to the config module", vis.get("config") == "in:config", msg=str(vis))
+    cbadt = prog.adt(G, r"config::ConfigBuilder$")
+    vis = {f["n"]: f["vis"] for f in cbadt["variants"][0]["fields"]}
+    ctx.ob("writers", "ConfigBuilder's Config is private to the config module", all(vis.get(f) == "in:config" for f in cfg_field), msg=str(vis))
     ca = prog.adt(G, r"^libp2p_gossipsub::config::Config$")
     cvis = {f["n"]: f["vis"] for f in ca["variants"][0]["fields"]}
-    ctx.ob("writers", "Config's validated fields are private", all(cvis.get(f) == "in:config" for f in ("protocol", "history_length", "history_gossip", "topic_configuration")), msg=str({k: cvis.get(k) for k in ("protocol", "history_length", "history_gossip", "topic_configuration")}))
+    top = {re.findall(r"\.(\w+)", op[g].replace("\\", "").replace(CFG, "", 1))[0] for g in op}
+    ctx.ob("writers", "Config's validated fields are private", all(cvis.get(f) == "in:config" for f in top), msg=str({k: cvis.get(k) for k in sorted(top)}))
     outs = sorted(body.npath for body in prog.bodies(G) if body.kind != "closure" and body.locals and
                   re.search(r"(^|[<(, ])config::Config($|[>), ])", str(body.locals[0])))
     ctx.ob("writers", "a Config value is only handed out by build (and Config::default / clone)",
@@ -293,60 +286,80 @@ def check(ctx):
     ag = td.agg_sites(r"config::TopicMeshConfig$")
     vals = {}
     if len(ag) == 1:
-        for k, e in td.site_expr(ag[0])[4]:
+        for k, e in Canon(prog, td).site(ag[0])[4]:
             vals[k] = e[1] if e[0] == "const" else None
-    okd = all(isinstance(vals.get(k), int) for k in ("mesh_n", "mesh_n_low", "mesh_n_high", "mesh_outbound_min")) and \
+    okd = all(isinstance(vals.get(k), int) for k in MESH) and \
         vals["mesh_outbound_min"] <= vals["mesh_n_low"] <= vals["mesh_n"] <= vals["mesh_n_high"] and 2 * vals["mesh_outbound_min"] <= vals["mesh_n"]
     ctx.ob("defaults", "built-in default mesh parameters satisfy the relations", okd, "%s:%d" % (td.file, td.line), str(vals))
     bd = ctx.body(G, r"config::ConfigBuilder as std::default::Default>::default$")
     ag = bd.agg_sites(r"^libp2p_gossipsub::config::Config$")
     hv = {}
+    hg, hl = op["history_gossip"].replace("\\", "")[1:-1].split(".")[-1], op["history_length"].replace("\\", "")[1:-1].split(".")[-1]
     if len(ag) == 1:
-        for k, e in bd.site_expr(ag[0])[4]:
-            if k in ("history_length", "history_gossip"):
+        for k, e in Canon(prog, bd).site(ag[0])[4]:
+            if k in (hg, hl):
                 hv[k] = e[1] if e[0] == "const" else None
-    ctx.ob("defaults", "built-in history_gossip <= history_length", all(isinstance(v, int) for v in hv.values()) and len(hv) == 2 and hv["history_gossip"] <= hv["history_length"], "%s:%d" % (bd.file, bd.line), str(hv))
+    ctx.ob("defaults", "built-in history_gossip <= history_length", all(isinstance(v, int) for v in hv.values()) and len(hv) == 2 and hv[hg] <= hv[hl], "%s:%d" % (bd.file, bd.line), str(hv))
     pd = ctx.body(G, r"protocol::ProtocolConfig as std::default::Default>::default$")
     ag = pd.agg_sites(r"protocol::ProtocolConfig$")
     dv = None
+    dmf = op["max_transmit_size"].replace("\\", "")[1:-1].split(".")[-1]
     if len(ag) == 1:
-        for k, e in pd.site_expr(ag[0])[4]:
-            if k == "default_max_transmit_size":
+        for k, e in Canon(prog, pd).site(ag[0])[4]:
+            if k == dmf:
                 dv = e[1] if e[0] == "const" else None
     ctx.ob("defaults", "built-in default_max_transmit_size >= 100", isinstance(dv, int) and dv >= 100, "%s:%d" % (pd.file, pd.line), str(dv))
-    # ======================================================================================= getters used by the behaviour
-    for f in ("mesh_n", "mesh_n_low", "mesh_n_high", "mesh_outbound_min"):
-        g = ctx.body(G, r"^libp2p_gossipsub::config::Config::%s$" % f)
-        r0 = [render(g.rvalue_expr(x[3])) for x in g.defs[0] if x[0] == "stmt"]
-        ctx.ob("getters", "Config::%s returns the validated field" % f, r0 == ["self.topic_configuration.default_mesh_params.%s" % f], "%s:%d" % (g.file, g.line), str(r0))
-        g = ctx.body(G, r"^libp2p_gossipsub::config::Config::%s_for_topic$" % f)
-        r0 = [render(g.rvalue_expr(x[3])) for x in g.defs[0] if x[0] == "stmt"]
-        want = "std::option::Option::unwrap_or(std::collections::HashMap::get(self.topic_configuration.topic_mesh_params, topic_hash), self.topic_configuration.default_mesh_params).%s" % f
-        ctx.ob("getters", "Config::%s_for_topic returns the validated field" % f, r0 == [want], "%s:%d" % (g.file, g.line), str(r0)[:200])
-    for f in ("history_length", "history_gossip"):
-        g = ctx.body(G, r"^libp2p_gossipsub::config::Config::%s$" % f)
-        r0 = [render(g.rvalue_expr(x[3])) for x in g.defs[0] if x[0] == "stmt"]
-        ctx.ob("getters", "Config::%s returns the validated field" % f, r0 == ["self.%s" % f], "%s:%d" % (g.file, g.line), str(r0))
+    # ======================================================================================= setters / getters agree
+    for f in MESH + ("history_length", "history_gossip", "max_transmit_size"):
+        sb = ctx.body(G, r"^libp2p_gossipsub::config::ConfigBuilder::%s$" % f)
+        csb = Canon(prog, sb)
+        wr = set()
+        for bi in sb.live:
+            for st in sb.blocks[bi]["stmts"]:
+                if st["k"] == "assign" and st["p"].get("pr") and render(csb.x(sb.rvalue_expr(st["r"]))) == "$2":
+                    wr.add(render(csb.x(sb.place_expr(st["p"]))))
+        want = op[f].replace("\\", "")[1:-1]
+        ctx.ob("getters", "ConfigBuilder::%s writes what Config::%s returns" % (f, f), wr == {want}, "%s:%d" % (sb.file, sb.line), "setter writes %s; getter (re-based) reads %s" % (sorted(wr), want))
+    tmp = coll.get("set_topic_config")
+    for f in MESH:
+        _, r = getter_return(prog, f + "_for_topic")
+        _, d0 = getter_return(prog, f)
+        base = d0.rsplit(".", 1)[0]
+        want = r"^std::option::Option::unwrap_or\(std::collections::HashMap::get\(%s, \$2\), %s\)\.%s$" % (re.escape((tmp or "?").replace(CFG, "$1")), re.escape(base), f)
+        ctx.ob("getters", "Config::%s_for_topic = the topic's entry or the default, same field as Config::%s" % (f, f), d0.endswith("." + f) and re.match(want, r) is not None, msg=r[:200])
     g = ctx.body(G, r"^libp2p_gossipsub::protocol::ProtocolConfig::max_transmit_size_for_topic$")
-    r0 = [render(g.call_expr(x[3], x[1])) if x[0] == "call" else render(g.rvalue_expr(x[3])) for x in g.defs[0]]
-    ctx.ob("getters", "max_transmit_size_for_topic = topic entry or the default", r0 == ["std::option::Option::unwrap_or(std::option::Option::copied(std::collections::HashMap::get(self.max_transmit_sizes, topic)), self.default_max_transmit_size)"], "%s:%d" % (g.file, g.line), str(r0)[:200])
+    r0 = [render(e) for _, e in Canon(prog, g).returns()]
+    szc = (coll.get("max_transmit_size_for_topic") or "?").split(".")[-1]
+    ctx.ob("getters", "max_transmit_size_for_topic = topic entry or the default", r0 == ["std::option::Option::unwrap_or(std::collections::HashMap::get($1.%s, $2), $1.%s)" % (szc, dmf)], "%s:%d" % (g.file, g.line), str(r0)[:200])
     # history window relation is what keeps `history[..gossip]` in bounds
     mc = prog.callers(G, r"^libp2p_gossipsub::mcache::MessageCache::new$")
-    for s in mc:
-        a = [render(x) for x in s.body.site_expr(s)[2]]
-        ctx.ob("getters", "the gossip window (history_gossip) is cut out of a history of history_length slots", a == ["libp2p_gossipsub::config::Config::history_gossip(config)", "libp2p_gossipsub::config::Config::history_length(config)"], s.loc(), str(a))
+    nb = ctx.body(G, r"^libp2p_gossipsub::mcache::MessageCache::new$")
     ctx.floor("getters", "MessageCache::new callers", mc, 1)
+    ag = nb.agg_sites(r"mcache::MessageCache$")
+    pos = {}
+    if len(ag) == 1:
+        for k, e in Canon(prog, nb).site(ag[0])[4]:
+            aa = [x for x in mir.walk(e) if x[0] == "arg"]
+            if len(aa) == 1:
+                pos[k] = (aa[0][1], render(e))
+    win = [k for k, (i, r) in pos.items() if r == "$%d" % i]
+    cap = [k for k, (i, r) in pos.items() if r.startswith("std::vec::from_elem(")]
+    for s in mc:
+        a = Canon(prog, s.body, inline=INL).args(s)
+        ok = len(win) == 1 and len(cap) == 1 and len(a) == 2 and render(a[pos[win[0]][0] - 1]).endswith("." + hg) and render(a[pos[cap[0]][0] - 1]).endswith("." + hl)
+        ctx.ob("getters", "the gossip window (history_gossip) is cut out of a history of history_length slots", ok, s.loc(), str([render(x)[-40:] for x in a]))
     gg = ctx.body(G, r"^libp2p_gossipsub::mcache::MessageCache::get_gossip_message_ids$")
-    idx = [render(gg.site_expr(s)) for s in gg.call_sites(r"ops::Index>::index$")]
-    ctx.ob("getters", "history[..gossip] is the only range index of the gossip path (in bounds iff history_gossip <= history_length)", idx == ["<std::vec::Vec as std::ops::Index>::index(self.history, std::ops::RangeTo::RangeTo{end: self.gossip})"], "%s:%d" % (gg.file, gg.line), str(idx)[:200])
+    idx = [render(Canon(prog, gg).site(s)) for s in gg.call_sites(r"ops::Index>::index$")]
+    ctx.ob("getters", "history[..gossip] is the only range index of the gossip path (in bounds iff history_gossip <= history_length)",
+           len(idx) == 1 and len(win) == 1 and len(cap) == 1 and idx[0] == "<std::vec::Vec as std::ops::Index>::index($1.%s, std::ops::RangeTo::RangeTo{end: $1.%s})" % (cap[0], win[0]), "%s:%d" % (gg.file, gg.line), str(idx)[:200])
     # ======================================================================================= heartbeat subtractions
     h = ctx.body(G, r"^libp2p_gossipsub::behaviour::Behaviour::heartbeat$")
+    ch = Canon(prog, h)
     subs = []
     for bi in sorted(h.live):
         t = h.blocks[bi]["term"]
         if t and t["k"] == "assert" and t["msg"].startswith("overflow:Sub"):
-            c = h.operand_expr(t["c"])
-            # c = field .1 of SubWithOverflow(a, b)
+            c = ch.x(h.operand_expr(t["c"]))
             sub = [x for x in mir.walk(c) if x[0] == "bin" and x[1] == "SubWithOverflow"]
             if sub:
                 subs.append((mir.Site(h, bi), sub[0][2], sub[0][3]))
@@ -358,8 +371,7 @@ def check(ctx):
     seen_names = {}
     for site, a, bb_ in subs:
         ra, rb = render(a), render(bb_)
-        facts_, used = guard_facts(h, site.bb)
-        # constants and non-negativity
+        facts_, used = guard_facts(ch, site.bb)
         consts = set()
         for x in (a, bb_):
             if x[0] == "const" and isinstance(x[1], int):
@@ -374,34 +386,30 @@ def check(ctx):
         for n in nodes:
             if not re.match(r"^\d+$", n):
                 base.append(("0", n, 0))           # usize values are >= 0
-        # a collected vector has the length of the collection it was collected from (Vec::len(v) == len(src)), if never resized
+        # a collected vector has the length of the collection it was collected from, if never resized
         for n in list(nodes):
-            m = re.match(r"^(?:Div\()?std::vec::Vec::len\((\w+)\)", n)
+            m = re.match(r"^(?:Div\()?std::vec::Vec::len\(%(\d+)\)", n)
             if m:
-                ls = [k for k, nm in h.names.items() if nm == m.group(1)]
-                for l in ls:
-                    init = render(h.init_expr(l))
-                    mm = re.match(r"^std::iter::Iterator::collect\(std::collections::BTreeSet::iter\((.*)\)\)$", init)
-                    resized = [s for s in h.call_sites(MUTATORS) if h.site_expr(s)[2] and render(h.site_expr(s)[2][0]) == m.group(1)]
-                    if mm and not resized and h.dominates(h.defs[l][0][1], site.bb):
-                        src_len = "std::collections::BTreeSet::len(%s)" % mm.group(1)
-                        vl = "std::vec::Vec::len(%s)" % m.group(1)
-                        base += [(vl, src_len, 0), (src_len, vl, 0)]
-        # X >= c  =>  X / c >= 1
+                l = int(m.group(1))
+                init = ch.init(l)
+                mm = re.match(r"^std::iter::Iterator::collect\(std::collections::BTreeSet::iter\((.*)\)\)$", render(init)) if init else None
+                resized = [s for s in h.call_sites(MUTATORS) if ch.args(s) and render(ch.args(s)[0]) == "%%%d" % l]
+                if mm and not resized and h.dominates(h.defs[l][0][1], site.bb):
+                    src_len = "std::collections::BTreeSet::len(%s)" % mm.group(1)
+                    vl = "std::vec::Vec::len(%%%d)" % l
+                    base += [(vl, src_len, 0), (src_len, vl, 0)]
         for n in list(nodes):
             m = re.match(r"^Div\((.*), (\d+)\)$", n)
             if m and int(m.group(2)) > 0:
                 c = m.group(2)
-                tmp = base + [(c, "0", int(c)), ("0", c, -int(c))]
-                if closure_le(tmp, c, m.group(1)):
+                tmp_ = base + [(c, "0", int(c)), ("0", c, -int(c))]
+                if closure_le(tmp_, c, m.group(1)):
                     base += [("1", n, 0), ("1", "0", 1), ("0", "1", -1)]
         local_ok = closure_le(base, rb, ra)
-        # build invariants for the parameter set of the same topic
         inv = []
         topics = set()
         for n in nodes:
-            for m in re.finditer(r"libp2p_gossipsub::config::Config::(mesh_n|mesh_n_low|mesh_n_high|mesh_outbound_min)_for_topic\(self\.config, ", n):
-                # argument text up to the matching parenthesis
+            for m in re.finditer(r"libp2p_gossipsub::config::Config::(?:mesh_n|mesh_n_low|mesh_n_high|mesh_outbound_min)_for_topic\(", n):
                 i = m.end()
                 depth, j = 1, i
                 while j < len(n) and depth:
@@ -409,7 +417,7 @@ def check(ctx):
                     depth -= n[j] == ")"
                     j += 1
                 topics.add(n[i:j - 1])
-        P = lambda f, t: "libp2p_gossipsub::config::Config::%s_for_topic(self.config, %s)" % (f, t)
+        P = lambda f, t: "libp2p_gossipsub::config::Config::%s_for_topic(%s)" % (f, t)
         for t in topics:
             inv += [(P("mesh_outbound_min", t), P("mesh_n_low", t), 0), (P("mesh_n_low", t), P("mesh_n", t), 0), (P("mesh_n", t), P("mesh_n_high", t), 0)]
         full_ok = local_ok or closure_le(base + inv, rb, ra)
@@ -427,8 +435,7 @@ def check(ctx):
         ctx.ob("heartbeat-sub", nm, full_ok, site.loc(),
                ("proved from the dominating guards [%s]%s" % ("; ".join(used), (" and the build invariant(s) " + ", ".join(needed)) if needed else "")) if full_ok else
                "not implied by the dominating guards [%s] and mesh_outbound_min <= mesh_n_low <= mesh_n <= mesh_n_high" % "; ".join(used))
-    # the parameters used in heartbeat are the per-topic getters applied to the mesh entry being maintained
-    for f in ("mesh_n", "mesh_n_low", "mesh_n_high", "mesh_outbound_min"):
+    for f in MESH:
         cs = h.call_sites(r"config::Config::%s_for_topic$" % f)
-        ok = bool(cs) and all(re.match(r"^self\.config$", render(h.site_expr(s)[2][0])) and re.search(r"next\(iter\)@Some\.0\.0$", render(h.site_expr(s)[2][1])) for s in cs)
+        ok = bool(cs) and all(re.match(r"^\$1\.\w+$", render(ch.args(s)[0])) and re.search(r"next\(%\d+\)@Some\.0\.0$", render(ch.args(s)[1])) for s in cs)
         ctx.ob("heartbeat-sub", "heartbeat reads %s through the per-topic getter for the topic being maintained" % f, ok, cs[0].loc() if cs else "", "%d call(s)" % len(cs))
